@@ -91,3 +91,17 @@ structure MeanResult (α : Type) where
   rel_effect_size_ci_upper : Bound α
   pvalue : α
   statistic : α
+
+/-- `_Benjamini` object: `alpha` and the (possibly harmonic-inflated) family size -/
+structure BenjaminiCfg (α : Type) where
+  alpha : α
+  m_adj_ : α
+
+/-- `_Bonferroni` / `_Sidak` object -/
+structure FwerCfg (α : Type) where
+  alpha : α
+  m : α
+
+/-- `sum(1 / i for i in range(1, m + 1))` -/
+def harmonic {α : Type} [Field α] (m : ℕ) : α :=
+  ((List.range m).map (fun (i : ℕ) => (1 : α) / ((i : α) + 1))).sum
